@@ -228,7 +228,9 @@ def many_token(fn, gets):
     except BaseException:  # noqa: BLE001
         return P.res_token(fn_raise(sys.exc_info()[1]))
     if gets and isinstance(r, dict) and all(isinstance(v, tuple) for v in r.values()):
-        return "casdict:{" + ";".join(sorted("b:" + k.hex() + "=" + v[0].hex() + "/" + v[1].hex() for k, v in r.items())) + "}"
+        def hx_(x):
+            return x.hex() if isinstance(x, (bytes, bytearray)) else "other:" + repr(x)[:30].replace(" ", "_")
+        return "casdict:{" + ";".join(sorted("b:" + hx_(k) + "=" + "/".join(hx_(x) for x in v) for k, v in r.items())) + "}"
     return P.res_token(lambda: r)
 
 
